@@ -7,9 +7,10 @@
      subject_listed        : the subject is one of the successors
    Go's map iteration orders are the [ords]/[ord] arguments; the theorems hold for all of
    them ([same_elements]/[reorders] only say that an iteration visits the keys of the map). *)
-From Coq Require Import List Arith Bool.
+From Coq Require Import List Arith Bool NArith.
 Import ListNotations.
 From Oras Require Import Model.OciGC Proofs.OciGC.
+From Oras Require Model.GraphMem Proofs.GraphMem Proofs.OciGCGraph.
 
 (* ---- GC ---- *)
 
@@ -372,6 +373,31 @@ Theorem C09_unsaved_index_refuted :
   blobs (mem (prun_w (PAutoSave false :: [PO (OPush 0); PO (OPush 1); PO (OTag 1 0); PSave; PO OReopen; PO OGC]))) = [1; 0].
 Proof. exact unsaved_index_lost. Qed.
 Print Assumptions C09_unsaved_index_refuted.
+
+(* ---- the graph abstraction ---- *)
+
+(* The C09 model represents graph.Memory by its node set and derives predecessors and
+   danglings from it.  This is sound for the concrete model of internal/graph/memory.go
+   (Model/GraphMem.v, property C07: nodes, predecessors map, successors map, Index and Remove
+   statement by statement): on every concrete state with C07's representation invariant
+   (proved there for all histories) Predecessors, the danglings Remove reports -- for every
+   iteration order of the successor set -- and the node sets after Remove and index are
+   exactly what the C09 model computes ([absn] = the node set, keys N there, nat here). *)
+Theorem C09_graph_abstraction :
+  forall (succ : nat -> list nat) (g : GraphMem.graph),
+  Proofs.GraphMem.Inv (OciGCGraph.contentN succ) g ->
+  (forall n p, In p (GraphMem.predecessors g n) <->
+               In (N.to_nat p) (preds succ (OciGCGraph.absn g) (N.to_nat n))) /\
+  (forall n order, Permutation.Permutation order (GraphMem.getd (GraphMem.g_succs g) n) ->
+     Proofs.GraphMem.Inv (OciGCGraph.contentN succ) (fst (GraphMem.remove_ord g n order)) /\
+     (forall d, In d (snd (GraphMem.remove_ord g n order)) <->
+                In (N.to_nat d) (danglings succ (OciGCGraph.absn g) (N.to_nat n))) /\
+     (forall x, In x (OciGCGraph.absn (fst (GraphMem.remove_ord g n order))) <->
+                In x (removeb (N.to_nat n) (OciGCGraph.absn g)))) /\
+  (forall n x, In x (OciGCGraph.absn (GraphMem.index g n (OciGCGraph.contentN succ n))) <->
+               x = N.to_nat n \/ In x (OciGCGraph.absn g)).
+Proof. exact OciGCGraph.graph_bridge_final. Qed.
+Print Assumptions C09_graph_abstraction.
 
 (* ---- the hypotheses are satisfiable on non-trivial instances ---- *)
 Example C09_hyps_satisfiable : acyclic succ_w /\ subject_listed succ_w subject_w.
